@@ -173,6 +173,12 @@ Definition copyto_bcast (n : Z) (v : list Z) : res (list Z) :=
    the statement skeleton that was modelled (kernels gs_shape, gi_shape, cp_shape, ss_shape) *)
 Definition storage_shapes_pinned : bool := gs_shape && gi_shape && cp_shape && ss_shape.
 
+(* the statements of the generators that decide copy-vs-alias are the ones that were modelled: data=data.exp with
+   copy=True, `if copy: data = data.copy()`, [data.exp.copy() ...] in unblind, the read-only body of
+   calc_source_signal_mc_event_flux, DataFieldRecordArray(dfra) forcing copy=True *)
+Definition copy_statements_pinned : bool :=
+  fx_gen_shape && scrdata_shape && unblind_shape && sigflux_shape && ctor_dfra_forces_copy.
+
 (* DataFieldRecordArray(self, keep_fields=keep): every kept column is copied *)
 Definition t_copy (t : tloc) (keep : option (list fid)) : M tloc :=
   mdo x <-- rdtab t ;;
@@ -298,6 +304,7 @@ Definition scramble (m : scr) (t : tloc) : M unit :=
       mdo br <-- alloc (map i3t_ra_store ras) ;;       (* the float64 result of azi_to_ra_transform, as it is *)
       t_setitem t F_RA br
   | ScrSeasonal times ras =>
+      mdo _ <-- t_getitem t F_TIME ;;                  (* size=len(data['time']): KeyError before any write *)
       mdo bt <-- alloc times ;;
       mdo _ <-- t_setitem t F_TIME bt ;;
       mdo _ <-- t_getitem t F_AZI ;;
@@ -487,7 +494,8 @@ Inductive op :=
 | InitPre (i : nat) (l : list (fid * fval))                          (* pre-event-selection data fields *)
 | InitSelect (i : nat) (es : evsel)                                  (* event selection; self.events = selected *)
 | InitFinish (i : nat) (srt : option (fid * list Z)) (l : list (fid * fval))   (* sort, static data fields *)
-| Evaluate (i : nat)                                                 (* llhratio evaluation: reads the trial data *)
+| Evaluate (i : nat) (l : list (fid * fval))                         (* llhratio evaluation: reads the trial data; global-fit-parameter
+                                                                        dependent data fields are (re)written into tdm.events *)
 | UnblindCopy (i : nat)                                              (* unblind: events = data.exp.copy() (fix cb41ee3) *)
 | DropEvents (i : nat)                                               (* the caller forgets the generated arrays *)
 | DropSig (i : nat)                                                  (* ... only the signal arrays *)
@@ -615,10 +623,10 @@ Definition step (o : op) (w : world) : world * res unit :=
                       set_fields t l)
                    (fun w' _ => w')
       end
-  | Evaluate i =>
+  | Evaluate i l =>
       match getroot (w_tdm w) i with
       | None => (w, Err AttributeError)
-      | Some _ => (w, Ok tt)
+      | Some t => on_store w (set_fields t l) (fun w' _ => w')
       end
   | UnblindCopy i =>
       match nth_error (w_exp w) i with
@@ -738,14 +746,14 @@ Definition ex_ops : list op :=
     InitSet 0; InitPre 0 [(8%nat, FFresh [1; 1; 1; 1; 1])];
     InitSelect 0 (ESSel (SMask [true; true; false; true; true]));
     InitFinish 0 (Some (F_TIME, [3; 2; 1; 0])) [(10%nat, FAlias F_RA)];
-    Evaluate 0;
+    Evaluate 0 [(12%nat, FFresh [3; 3; 3; 3]); (12%nat, FFresh [4; 4; 4; 4])];
     UnblindCopy 0; InitPre 0 []; InitSelect 0 ESAll; InitFinish 0 (Some (F_TIME, [2; 1; 0])) [(8%nat, FAlias F_RA)];
     GenBkgMC 1 [F_RA] [9%nat] (Some (SIdx [0; 1; 2])) [0; 0; 2] (ScrI3Time [1; 2; 3] [4; 5; 6]);
     GenBkgMC 1 [F_RA] [9%nat] None [2; 1] (ScrTime [1; 2] [4; 5] [6; 7]);
     GenBkgFixed 1 (ScrSeasonal [7; 8; 9] [1; 2; 3]);
     GenBkgComp 0 [F_RA] [9%nat] (ScrUniform 29 0 4618760256179416344 [4618760256179416343; 17; 5; 0])
                [(11%nat, [1; 2; 3; 4])] None [3; 3; 0];
-    GenSig 1 1 0 [mkG [2] [] [false] []]; Merge 1; InitSet 1; InitFinish 1 None []; Evaluate 1;
+    GenSig 1 1 0 [mkG [2] [] [false] []]; Merge 1; InitSet 1; InitFinish 1 None []; Evaluate 1 [];
     DropEvents 0; UnblindCopy 1 ].
 
 (* 2 pi as a float64 bit pattern; float32 narrowing = rne 29 on bit patterns *)
